@@ -108,6 +108,12 @@ func (la *ShareAvailability) SharesAvailable(ctx context.Context, header *header
 		}
 		// No previous results; create new samples
 		samples = NewSamplingResult(len(dah.RowRoots), int(la.params.SampleAmount))
+		// Persist the drawn coordinates before any of them is requested, so that a retry after a
+		// failed, empty, cancelled or interrupted attempt re-requests the same coordinates
+		// instead of drawing a fresh set.
+		if err := la.storeResult(ctx, key, samples); err != nil {
+			return err
+		}
 	} else {
 		err = json.Unmarshal(data, samples)
 		if err != nil {
@@ -158,15 +164,8 @@ func (la *ShareAvailability) SharesAvailable(ctx context.Context, header *header
 	samples.Remaining = failedSamples
 
 	// Store the updated sampling result
-	updatedData, err := json.Marshal(samples)
-	if err != nil {
+	if err := la.storeResult(ctx, key, samples); err != nil {
 		return err
-	}
-	la.dsLk.Lock()
-	err = la.ds.Put(ctx, key, updatedData)
-	la.dsLk.Unlock()
-	if err != nil {
-		return fmt.Errorf("store sampling result: %w", err)
 	}
 
 	if errors.Is(errGetSamples, context.Canceled) {
@@ -180,6 +179,20 @@ func (la *ShareAvailability) SharesAvailable(ctx context.Context, header *header
 		return share.ErrNotAvailable
 	}
 
+	return nil
+}
+
+// storeResult persists the sampling result under the given key.
+func (la *ShareAvailability) storeResult(ctx context.Context, key datastore.Key, result *SamplingResult) error {
+	data, err := json.Marshal(result)
+	if err != nil {
+		return err
+	}
+	la.dsLk.Lock()
+	defer la.dsLk.Unlock()
+	if err := la.ds.Put(ctx, key, data); err != nil {
+		return fmt.Errorf("store sampling result: %w", err)
+	}
 	return nil
 }
 
